@@ -1340,13 +1340,21 @@ def check_from_networkx_multi(case):
         M.add_edge(u, v)
         M.add_edge(v, u)              # a parallel edge
     variants.append(('multigraph', M, sorted(set(edges))))
+    # a directed graph (what a 'directed 1' gml or a 'digraph' dot file delivers):
+    # arcs low->high, high->low and in both directions; if the conversion
+    # accepts it, the simple graph has exactly the pairs joined by some arc
     D = networkx.DiGraph()
     D.add_nodes_from(range(1, n + 1))
     for k, (u, v) in enumerate(edges):
-        D.add_edge(u, v)
-        if k % 2:
-            D.add_edge(v, u)
-    variants.append(('digraph', D, None))
+        lo, hi = min(u, v), max(u, v)
+        if k % 3 == 0:
+            D.add_edge(hi, lo)
+        elif k % 3 == 1:
+            D.add_edge(lo, hi)
+        else:
+            D.add_edge(lo, hi)
+            D.add_edge(hi, lo)
+    variants.append(('digraph', D, sorted(set((min(e), max(e)) for e in edges))))
     for name, X, want in variants:
         try:
             G = Graph.from_networkx(X)
@@ -1364,7 +1372,7 @@ def check_from_networkx_multi(case):
             continue
         if want is not None and listing != want:
             out.append({'key': 'Graph.from_networkx:%s:edges-differ' % name,
-                        'what': 'edges %r, the multigraph has the edges %r' % (listing, want), 'case': dict(case)})
+                        'what': 'edges %r, the %s joins the pairs %r' % (listing, name, want), 'case': dict(case)})
             continue
         V = Views('Graph', prefix='from_networkx(%s):' % name)
         check_simple(G, n, set(listing), V, roundtrip=False)
